@@ -16,6 +16,7 @@ import Mitx.Driver.Domain
 import Mitx.Driver.Schema
 import Mitx.Driver.Globals
 import Mitx.Driver.Answers
+import Mitx.Driver.Defaults
 open Lean
 
 def dispatch (op : String) (j : Json) : Except String Json :=
@@ -27,6 +28,7 @@ def dispatch (op : String) (j : Json) : Except String Json :=
   | "coerce" => Drv.coerceOp j
   | "validate_answers" => Drv.validateAnswers j
   | "np_hist" => Drv.npHist j
+  | "defaults_hist" => Drv.defaultsHist j
   | "string_clean" => Drv.stringClean j
   | "string_check" => Drv.stringCheck j
   | "check" => Drv.gradeCheck j
